@@ -445,7 +445,7 @@ def live_mc(ctx, name, scope, stepping):
     d = {"Emit": "TRUE"}
     d.update(consts)
     r = vlib.run_mc(ctx["prop"] + "_" + name, "MC_Live", d, ["Productive", "EmitCase"],
-                    {"Scope": scope, "Branches": "BranchesOf", "Labels": "LabelSet"},
+                    {"Scope": scope, "Branches": "BranchesOf", "Labels": "LabelSet", "Defs": "SpinDefs"},
                     workers=8, properties=["Fair"] if stepping else None,
                     spec="Spec" if stepping else "SafetySpec")
     ctx["mc"].append(r)
@@ -458,7 +458,8 @@ def live_cases(ctx, res, prefix):
         need = {k: v for k, v in c["need"].items() if v > 0}
         out.append({"id": "%s-%s-%d" % (ctx["prop"], prefix, n), "kind": "program", "mode": "solver", "goal": c["goal"],
                     "take": 3 * c["n"] + 10, "budget": 20 * c["ticks"] + 1000, "need": need, "noref": True,
-                    "model_ticks": c["ticks"], "after": 0})
+                    "model_ticks": c["ticks"], "after": 0,
+                    "defs": {"spin": {"params": [], "locals": [], "body": [["call", "spin", []]]}}})
     return out
 
 
